@@ -104,9 +104,18 @@ def run(tier: str) -> Run:
     T.reset()
     it = Interp(repo, Model())
     mmi = repo.module(MODELS)
-    parsers = it.global_name('_BLOCK_PARSERS', repo.module(SQW), None)
-    if not isinstance(parsers, dict) or not parsers:
-        raise AnalysisError('_BLOCK_PARSERS is not a literal table')
+    # the reader's dispatch table, found by its shape: the module-level dict {(serial name, version): parser function}
+    parsers = None
+    for gname in repo.module(SQW).assigns:
+        try:
+            g = it.global_name(gname, repo.module(SQW), None)
+        except AnalysisError:
+            continue
+        if isinstance(g, dict) and g and all(isinstance(k, tuple) and len(k) == 2 and isinstance(k[0], str) for k in g) and all(isinstance(v, FuncRef) for v in g.values()):
+            parsers = g
+            break
+    if parsers is None:
+        raise AnalysisError(f'{SQW}: no literal table (serial name, version) -> parser function')
 
     def roundtrip(cls_name, make_fields, parser_name=None, extra_parser_args=()):
         ci = repo.cls(MODELS, cls_name)
@@ -119,8 +128,16 @@ def run(tier: str) -> Run:
             struct = i.call_function(i.find_method(ci, 'serialize_to_ir'), [], {}, bound=obj)
             box['struct'] = struct
             if parser_name is not None:
-                pf = repo.func(SQW, parser_name)
-                return i.call_function(pf, [struct, *extra_parser_args], {})
+                try:
+                    pf = repo.func(SQW, parser_name)
+                except AnalysisError:
+                    # the nested parser is a private helper: without it this class is decided on whole files only (R5, R6)
+                    box['no_parser'] = True
+                    return struct
+                n_pos = len(pf.node.args.posonlyargs) + len(pf.node.args.args)
+                extra = list(extra_parser_args)
+                kw = dict(zip([a.arg for a in pf.node.args.kwonlyargs], extra[max(n_pos - 1, 0):], strict=False))
+                return i.call_function(pf, [struct, *extra[:max(n_pos - 1, 0)]], kw)
             key = (i.class_attr(ci, 'serial_name'), i.class_attr(ci, 'version'))
             ref = parsers.get(key)
             if not isinstance(ref, FuncRef):
@@ -138,6 +155,16 @@ def run(tier: str) -> Run:
     outs_box = [[]]
 
     def check_fields(cls_name, rets, box, value_fields, parsed_obj=lambda v: v, index_fields=()):
+        if box.get('no_parser'):
+            for f in value_fields:
+                if f'{cls_name}.{f}' not in seen:
+                    seen.add(f'{cls_name}.{f}')
+                    r2.ok(f'{cls_name}.{f}', {'decided_by': 'R5 / R6 on whole files (no separate parser for this class)'}, nontrivial=False)
+            for f in index_fields:
+                if f'{cls_name}.{f}' not in seen:
+                    seen.add(f'{cls_name}.{f}')
+                    r2i.ok(f'{cls_name}.{f}', {'decided_by': 'R5 / R6 on whole files (no separate parser for this class)'}, nontrivial=False)
+            return
         if not rets:
             r2.fail(f'{cls_name}: round trip', (loc(box['parser']) if box.get('parser') else where_of(repo, SQW, '_try_parse_block', 'Sqw.read_data_block')),
                     {'problem': 'the parser cannot read what the serializer of this class writes',
@@ -190,7 +217,6 @@ def run(tier: str) -> Run:
                 'u': sv(i, 'pu', '1/angstrom', 'vector'), 'v': sv(i, 'pv', '1/angstrom', 'vector'), 'w': sv(i, 'pw', '1/angstrom', 'vector'),
                 'non_orthogonal': False, 'type': 'aaa'}
     rets, outs, box = roundtrip('SqwLineProj', proj_fields, parser_name='_parse_line_proj_7_0')
-    box['parser'] = repo.func(SQW, '_parse_line_proj_7_0')
     check_fields('SqwLineProj', rets, box, ['lattice_spacing', 'lattice_angle', 'offset', 'u', 'v', 'w'], parsed_obj=lambda v: v[0])
 
     # ---- line_axes --------------------------------------------------------------------
@@ -202,7 +228,6 @@ def run(tier: str) -> Run:
                 'dax': sv(i, 'dax', NO_UNIT, dtype='int64'), 'offset': [sv(i, f'aoff{k}', u) for k, u in enumerate(U4)],
                 'changes_aspect_ratio': True, 'filename': 'f', 'filepath': 'p'}
     rets, outs, box = roundtrip('SqwLineAxes', axes_fields, parser_name='_parse_line_axes_7_0', extra_parser_args=(list(U4),))
-    box['parser'] = repo.func(SQW, '_parse_line_axes_7_0')
     check_fields('SqwLineAxes', rets, box, ['img_scales', 'img_range', 'offset'], index_fields=['dax'])
 
     # integer-valued metadata must be converted in floating point (scipp converts integer
@@ -235,7 +260,6 @@ def run(tier: str) -> Run:
                 'omega': sv(i, 'omega', 'deg'), 'dpsi': sv(i, 'dpsi', 'rad'), 'gl': sv(i, 'gl', 'deg'), 'gs': sv(i, 'gs', 'deg'),
                 'filename': 'f', 'filepath': 'p'}
     rets, outs, box = roundtrip('SqwIXExperiment', exp_fields, parser_name='_parse_single_ix_experiment_3_0')
-    box['parser'] = repo.func(SQW, '_parse_single_ix_experiment_3_0')
     check_fields('SqwIXExperiment', rets, box, ['efix', 'en', 'psi', 'omega', 'dpsi', 'gl', 'gs'], index_fields=['run_id'])
 
     # ---- abstract-file round trip: builder -> bytes -> independent decoder / package reader -----------------------
